@@ -15,6 +15,10 @@
 #include "watchdog.h"
 #define NEWCAP_IMPL
 #include "newcap.h"
+#if defined(__SANITIZE_ADDRESS__) && __has_include(<sanitizer/lsan_interface.h>)
+#include <sanitizer/lsan_interface.h>
+#define VERIF_HAVE_LSAN 1
+#endif
 
 using namespace Vector::BLF;
 using ol::Obj;
@@ -500,8 +504,8 @@ static int run_c10(uint64_t seed, long from, long to, const char * listfile, lon
     g_new_cap = 256u << 20;
     long sessions = 0, opened = 0, threw = 0, objects = 0; std::map<std::string, long> kinds; std::string sample;
     long phase = (long)(Rng::mix(seed, 0xC10) % (uint64_t)stride);
-    for (long c = from; c < to && c < ncases; c++) {
-        hc::begin_case(std::to_string(c));
+    // one mutant = one session; returns the context line
+    auto one = [&](long c, bool counted) -> std::string {
         size_t bi = 0; long j;
         if (c < nbulk) { long g = c * stride + phase; if (g >= btotal) g = btotal - 1; while (bi + 1 < bases.size() && bstart[bi + 1] <= g) bi++; j = bases[bi].unify(g - bstart[bi], true); }
         else { long g = c - nbulk; while (bi + 1 < bases.size() && tstart[bi + 1] <= g) bi++; j = bases[bi].unify(g - tstart[bi], false); }
@@ -514,27 +518,48 @@ static int run_c10(uint64_t seed, long from, long to, const char * listfile, lon
         try {
             File f; bool open_ok = false;
             if (c % 2) f.verifSetLimits(1 + (uint32_t)(c / 2) % 3, 64 << ((c / 6) % 4));      // workers blocked on full buffers when the input turns bad
-            try { f.open(path.c_str(), std::ios_base::in); open_ok = f.is_open(); } catch (Vector::BLF::Exception &) { threw++; }
+            try { f.open(path.c_str(), std::ios_base::in); open_ok = f.is_open(); } catch (Vector::BLF::Exception &) { if (counted) threw++; }
             if (open_ok) {
-                opened++;
+                if (counted) opened++;
                 long k = 0;
-                while (ObjectHeaderBase * o = f.read()) { delete o; objects++; if (++k > limit) { key = "unbounded-object-stream"; break; } }
+                while (ObjectHeaderBase * o = f.read()) { delete o; if (counted) objects++; if (++k > limit) { key = "unbounded-object-stream"; break; } }
                 f.close();
             }
         } catch (Vector::BLF::Exception & e) { key = "library-exception-escapes-read-or-close"; ctx += std::string(" what=") + e.what(); }
         catch (std::bad_alloc &) { key = "bad_alloc-escapes"; }
         catch (std::exception & e) { key = "foreign-exception-escapes"; ctx += std::string(" what=") + e.what(); }
-        if (!key.empty()) hc::viol(key + ":" + kind, ctx);
-        sessions++; kinds[kind]++;
-        if (sample.empty() || c % 4999 == 0) sample = ctx;
+        if (!key.empty() && counted) hc::viol(key + ":" + kind, ctx);
+        if (counted) { sessions++; kinds[kind]++; if (sample.empty() || c % 4999 == 0) sample = ctx; }
         wd::disarm();
+        return ctx;
+    };
+    // LeakSanitizer as a monitor: after every window of sessions nothing the library allocated may be unreachable. The supervisor
+    // narrows a hit down by running the window's sessions one per process (window 1), which also yields the allocation stack.
+    long leak_checks = 0, leak_window = getenv("VERIF_LEAK_WINDOW") ? atol(getenv("VERIF_LEAK_WINDOW")) : 64; bool leak_reported = false;
+    auto leak_check = [&](long a, long b) {
+#ifdef VERIF_HAVE_LSAN
+        if (leak_reported || a >= b) return;
+        leak_checks++;
+        if (!__lsan_do_recoverable_leak_check()) return;
+        leak_reported = true;      // later reports would repeat the same blocks
+        hc::viol("memory-leaked-by-session-on-corrupt-input", "window " + std::to_string(a) + " " + std::to_string(b) + " : LeakSanitizer found unreachable blocks after these sessions");
+#else
+        (void)a; (void)b;
+#endif
+    };
+    long wstart = from;
+    for (long c = from; c < to && c < ncases; c++) {
+        hc::begin_case(std::to_string(c));
+        one(c, true);
+        if (c + 1 - wstart >= leak_window) { leak_check(wstart, c + 1); wstart = c + 1; }
     }
+    leak_check(wstart, std::min(to, ncases));
     unlink(path.c_str());
-    std::ostringstream o; o << "{\"sessions\":" << sessions << ",\"opened\":" << opened << ",\"open_threw\":" << threw << ",\"objects_delivered\":" << objects << ",\"alloc_cap_hits\":" << g_new_cap_hits << ",\"kinds\":{";
+    std::ostringstream o; o << "{\"sessions\":" << sessions << ",\"opened\":" << opened << ",\"open_threw\":" << threw << ",\"objects_delivered\":" << objects << ",\"alloc_cap_hits\":" << g_new_cap_hits << ",\"leak_checks\":" << leak_checks << ",\"kinds\":{";
     bool first = true; for (auto & kv : kinds) { o << (first ? "" : ",") << "\"" << kv.first << "\":" << kv.second; first = false; }
     o << "},\"samples\":[" << hc::jstr(sample) << "]}";
     hc::stat(o.str());
-    return 0;
+    fflush(stdout); _exit(0);      // the leak monitor above has had the last word; LeakSanitizer's own pass at exit would repeat it
 }
 
 // ---------------------------------------------------------------------------------------------------------------- C14
